@@ -67,7 +67,7 @@ SPECS = [
              '123aa9b22a1c': "if table_id == '_grist_Validations': ...", 'c4648b193760': 'return filled_row_ids'}),
   dict(name='gen_doBulkUpdateRecord', src='useractions.py', path=['UserActions', 'doBulkUpdateRecord'],
        extra=[ALLC, '(raw_get : Z -> Z -> Z)', '(translate_new_row_ids : list Z -> list Z)',
-              '(convert_action_values : action -> action)'], consts=RW,
+              '(convert_action_values : bulk_action -> bulk_action)'], consts=RW,
        params=[('table_id', None), ('row_ids', 'zlist'), ('columns', 'dict')],
        opaque={'self._engine.out_actions.summary.translate_new_row_ids': ('translate_new_row_ids', [None, 'zlist'], 'zlist'),
                'self._engine.convert_action_values': ('convert_action_values', ['action'], 'action'),
